@@ -23,17 +23,19 @@ def deep_round_factory(tol):
     for i,j in enumerate(args):
       if isinstance(j, float): _args[i] = round(j, tol) # don't round int
       elif isinstance(j, (str, unicode, type(BaseException()))): continue
-      elif isinstance(j, dict): _args[i] = deep_round(**j)[1]
+      elif isinstance(j, dict): _args[i] = dict(zip(j.keys(), deep_round(*j.values())[0]))
       elif isiterable(j): #XXX: fails on the above, so don't iterate them
         jtype = type(j)
-        _args[i] = jtype(deep_round(*j)[0])
+        try: _args[i] = jtype(deep_round(*j)[0])
+        except TypeError: pass # can't rebuild from a tuple (range, namedtuple, ...)
     for i,j in kwds.items():
       if isinstance(j, float): _kwds[i] = round(j, tol)
       elif isinstance(j, (str, unicode, type(BaseException()))): continue
-      elif isinstance(j, dict): _kwds[i] = deep_round(**j)[1]
+      elif isinstance(j, dict): _kwds[i] = dict(zip(j.keys(), deep_round(*j.values())[0]))
       elif isiterable(j): #XXX: fails on the above, so don't iterate them
         jtype = type(j)
-        _kwds[i] = jtype(deep_round(*j)[0])
+        try: _kwds[i] = jtype(deep_round(*j)[0])
+        except TypeError: pass # can't rebuild from a tuple (range, namedtuple, ...)
     return argstype(_args), _kwds
   return deep_round
 
@@ -146,6 +148,9 @@ def shallow_round_factory(tol):
   """helper function for shallow_round (a factory for shallow_round functions)"""
   def around(iterable, tol):
     if isinstance(iterable, float): return round(iterable, tol)
+    if isinstance(iterable, (str, unicode)): return iterable
+    if isinstance(iterable, dict): # round the values, keep the keys
+      return dict((k, round(v, tol) if isinstance(v, float) else v) for (k,v) in iterable.items())
     from klepto.tools import isiterable
     if not isiterable(iterable): return iterable
     itype = type(iterable)
@@ -159,13 +164,11 @@ def shallow_round_factory(tol):
     _kwds = kwds.copy()
     for i,j in enumerate(args):
       try:
-        jtype = type(j)
-        _args[i] = jtype(around(j, tol))
+        _args[i] = around(j, tol)
       except: pass
     for i,j in kwds.items():
       try:
-        jtype = type(j)
-        _kwds[i] = jtype(around(j, tol))
+        _kwds[i] = around(j, tol)
       except: pass
     return argstype(_args), _kwds
   return shallow_round
